@@ -11,7 +11,7 @@ CONSTANTS
   SizeDomain <- MC_AllN
   FinalCompare = TRUE
   Clamp = "zero"
-  SizeBits = 16
+  SizeBits = 32
   Boundary = 0
 CHECK_DEADLOCK FALSE
 INVARIANT TypeOK
